@@ -88,6 +88,37 @@ def check(run):
                 want = bocspec.crc32c_fast(raw[:-4])
                 okc = raw[-4:] == want and dec['crc_at'] == len(raw) - 4
                 run.check(okc, 'D3', 'Cell.to_boc[crc]' if not okc else f'crc:{tag}', f'{tag}: trailer {raw[-4:].hex()} vs CRC-32C(le) of the preceding bytes {want.hex()}', w)
+    # histories: the same cell objects serialised in different bags, one after the other - positions in a bag belong to the bag, not to the cell
+    run.rule('D5', 'a cell serialised before (alone, inside another bag, with other options) serialises afresh: every later bag is a strict serialized_boc of its own DAG', 4)
+    from ..bocspec import SCell
+    leafa, leafb = SCell('1010'), SCell('110011')
+    inner = SCell('11110000', [leafa, leafb])
+    mid = SCell('0101', [leafb, inner])
+    outer = SCell('00111', [leafa, mid, inner])
+    other = SCell('1', [inner, leafa])
+    it = Interp(prog)
+    memo = {}
+
+    def obj(sc):
+        if id(sc) not in memo:
+            memo[id(sc)] = cm.new_cell(it, cm.tvm_bits(it, BA([Seg(len(sc.bits), 'k', sc.bits)])), [obj(r) for r in sc.refs])
+        return memo[id(sc)]
+    sequence = [('inner alone', inner, (False, False, False)), ('outer (inner deeper, other positions)', outer, (True, True, False)), ('mid', mid, (False, True, False)),
+                ('other root over inner', other, (True, False, True)), ('outer again', outer, (False, False, False)), ('inner again', inner, (True, True, True))]
+    for step, (what, sc, opt) in enumerate(sequence):
+        try:
+            out = cm.call_method(it, obj(sc), 'to_boc', K(opt[0]), K(opt[1]), K(opt[2]))
+            st = bocrun.stream_of(out)
+            dec = bocspec.strict_decode(st)
+            same = bocrun.decoded_key(dec, dec['roots'][0]) == bocrun.skey(sc)
+            ok, why = same, 'strict decoder accepts it' + ('' if same else ' but it decodes to a DIFFERENT DAG')
+        except bocspec.SpecError as e:
+            ok, why = False, f'strict decoder rejects the output: {e}'
+        except RaiseEx as e:
+            ok, why = False, f'raises {e}'
+        run.evaluations += 1
+        run.check(ok, 'D5', 'Cell.to_boc[cells serialised before]' if not ok else f'history step {step + 1}: {what}',
+                  f'step {step + 1} of serialising shared cell objects in turn ({", ".join(w_ for w_, _, _ in sequence[:step + 1])}): {why}', w)
     # default options: no index, no crc
     it = Interp(prog)
     c = bocrun.build(it, dags['chain3'][0])
